@@ -224,6 +224,52 @@ def check_payload(prog, rep, family, rctx, rname, pfield):
     rep.ok("C05.payload", f"{family}: {where} assigns {pfield} from the input with typecode {sorted(tcs)}")
 
 
+def resupplied_rule(prog, rep, rid, only):
+    """parameters the format does not store are honoured when re-supplied to an alternate constructor / the constructor"""
+    HASHF = {"BloomFilter": "_hash_func", "CountingBloomFilter": "_hash_func", "BloomFilterOnDisk": "_hash_func", "ExpandingBloomFilter": "_ExpandingBloomFilter__hash_func",
+             "RotatingBloomFilter": "_ExpandingBloomFilter__hash_func", "CountMinSketch": "_hash_function", "CountMeanSketch": "_hash_function",
+             "CountMeanMinSketch": "_hash_function", "HeavyHitters": "_hash_function", "StreamThreshold": "_hash_function",
+             "CuckooFilter": "_CuckooFilter__hash_func", "CountingCuckooFilter": "_CuckooFilter__hash_func"}
+    OTHER = {("RotatingBloomFilter", "max_queue_size"): "_queue_size", ("HeavyHitters", "num_hitters"): "_HeavyHitters__num_hitters",
+             ("StreamThreshold", "threshold"): "_StreamThreshold__threshold"}
+    for cname, hfld in HASHF.items():
+        if only is not None and cname not in only:
+            continue
+        K = prog.cls(cname)
+        for mn in ("frombytes", "__init__"):
+            f = K.find_method(mn)
+            if f is None or "hash_function" not in f.params:
+                continue
+            ps = [p for p in paths(prog, cname, f, inline="deep") if p.exit[0] == "return"]
+            if not ps:
+                continue
+            bad = None
+            for p in ps:
+                obj = loaded_obj(f, p)
+                hp = ("p", "hash_function")
+                given = None
+                for c in p.conds:
+                    a = strip_epochs(c.atom)
+                    if a in (("cmp", "isnot", hp, C(None)), ("cmp", "is", hp, C(None))):
+                        given = (a[1] == "isnot") == c.truth
+                v = p.fields.get((obj, hfld))
+                if v is None:
+                    continue
+                if given is True and strip_epochs(v) != hp:
+                    bad = (f"{hfld} = {nshow(v)}", f"a re-supplied hash_function is not honoured: the loaded structure hashes with {nshow(v)}")
+                if given is None and strip_epochs(v) != hp and not any(n == hp for n in walk(v)):
+                    bad = (f"{hfld} = {nshow(v)}", f"the hash_function argument does not reach the structure (it hashes with {nshow(v)})")
+                for (cn2, par), fld in OTHER.items():
+                    if cn2 == cname and par in f.params:
+                        ov = p.fields.get((obj, fld))
+                        if ov is None or strip_epochs(ov) != ("p", par):
+                            bad = (f"{fld} = {nshow(ov) if ov else 'unset'}", f"the re-supplied {par} is not honoured")
+            if bad:
+                rep.bad(rid, f"{cname}.{mn}", bad[0], f"{cname}.{mn}: {bad[1]}: the reloaded structure answers queries differently", f.where())
+            else:
+                rep.ok(rid, f"{cname}.{mn}: hash_function honoured")
+
+
 def expand_format(fmt: str) -> str:
     """struct format with byte-order prefix dropped and repeat counts written out ('<2I' -> 'II')"""
     out, n = "", ""
@@ -568,46 +614,7 @@ def check(prog, rep, tier):
         rep.ok("C05.ondisk-count-current", "every mutator of persisted state reaches __update")
     # ---------------------------------------------------------------- what the format does not store is honoured when re-supplied
     rep.rule("C05.resupplied", "parameters the format does not store (hash function, queue limit, table sizes, error rate) are honoured when re-supplied", floor=12)
-    HASHF = {"BloomFilter": "_hash_func", "CountingBloomFilter": "_hash_func", "BloomFilterOnDisk": "_hash_func", "ExpandingBloomFilter": "_ExpandingBloomFilter__hash_func",
-             "RotatingBloomFilter": "_ExpandingBloomFilter__hash_func", "CountMinSketch": "_hash_function", "CountMeanSketch": "_hash_function",
-             "CountMeanMinSketch": "_hash_function", "HeavyHitters": "_hash_function", "StreamThreshold": "_hash_function",
-             "CuckooFilter": "_CuckooFilter__hash_func", "CountingCuckooFilter": "_CuckooFilter__hash_func"}
-    OTHER = {("RotatingBloomFilter", "max_queue_size"): "_queue_size", ("HeavyHitters", "num_hitters"): "_HeavyHitters__num_hitters",
-             ("StreamThreshold", "threshold"): "_StreamThreshold__threshold"}
-    for cname, hfld in HASHF.items():
-        K = prog.cls(cname)
-        for mn in ("frombytes", "__init__"):
-            f = K.find_method(mn)
-            if f is None or "hash_function" not in f.params:
-                continue
-            ps = [p for p in paths(prog, cname, f, inline="deep") if p.exit[0] == "return"]
-            if not ps:
-                continue
-            bad = None
-            for p in ps:
-                obj = loaded_obj(f, p)
-                hp = ("p", "hash_function")
-                given = None
-                for c in p.conds:
-                    a = strip_epochs(c.atom)
-                    if a in (("cmp", "isnot", hp, C(None)), ("cmp", "is", hp, C(None))):
-                        given = (a[1] == "isnot") == c.truth
-                v = p.fields.get((obj, hfld))
-                if v is None:
-                    continue
-                if given is True and strip_epochs(v) != hp:
-                    bad = (f"{hfld} = {nshow(v)}", f"a re-supplied hash_function is not honoured: the loaded structure hashes with {nshow(v)}")
-                if given is None and strip_epochs(v) != hp and not any(n == hp for n in walk(v)):
-                    bad = (f"{hfld} = {nshow(v)}", f"the hash_function argument does not reach the structure (it hashes with {nshow(v)})")
-                for (cn2, par), fld in OTHER.items():
-                    if cn2 == cname and par in f.params:
-                        ov = p.fields.get((obj, fld))
-                        if ov is None or strip_epochs(ov) != ("p", par):
-                            bad = (f"{fld} = {nshow(ov) if ov else 'unset'}", f"the re-supplied {par} is not honoured")
-            if bad:
-                rep.bad("C05.resupplied", f"{cname}.{mn}", bad[0], f"{cname}.{mn}: {bad[1]}: the reloaded structure answers queries differently", f.where())
-            else:
-                rep.ok("C05.resupplied", f"{cname}.{mn}: hash_function honoured")
+    resupplied_rule(prog, rep, "C05.resupplied", None)
     from .C07 import fingerprint_final_geometry
     fingerprint_final_geometry(prog, rep, "C05.resupplied-error-rate")
     rep.extra["formats"] = samples
